@@ -138,6 +138,7 @@ pub fn gen(tier: Tier, rng: &mut Rng) -> Vec<Sx> {
         let text = pr_gcond(&c, &mut lay, false);
         v.push(Sx::l(vec![Sx::n(1), Sx::s(&text), c]));
     }
+    gen_split(tier, rng, &mut v);
     v
 }
 
@@ -235,7 +236,64 @@ fn sx_of_action(a: &ActionType) -> Sx {
     }
 }
 
+/// the splitting layer below the regular expressions (Model/GrlSplit.v): (2 text) split_arguments, (3 text pattern)
+/// find_outside_strings, (4 text) parse_then_clause - statement kinds and assigned fields
+#[cfg(rre_verif)]
+fn run_split(case: &Sx) -> (Sx, String) {
+    use rust_rule_engine::types::ActionType as A;
+    let text = case.at(1).as_s();
+    match case.at(0).as_u() {
+        2 => (Sx::l(GRLParser::verif_split_arguments(&text).iter().map(|p| Sx::s(p)).collect()), "split-arguments".into()),
+        3 => (match GRLParser::verif_find_outside_strings(&text, &case.at(2).as_s()) { Some(i) => Sx::l(vec![Sx::us(i)]), None => Sx::l(vec![]) }, "find-outside".into()),
+        _ => match GRLParser::verif_parse_then_clause(&text) {
+            Ok(acts) => (Sx::l(vec![Sx::n(0), Sx::l(acts.iter().map(|a| match a {
+                A::Append { field, .. } => Sx::l(vec![Sx::n(0), Sx::s(field)]),
+                A::Set { field, .. } => Sx::l(vec![Sx::n(1), Sx::s(field)]),
+                _ => Sx::l(vec![Sx::n(2), Sx::l(vec![])]) }).collect())]), format!("then-clause {}", acts.len().min(4))),
+            Err(_) => (Sx::l(vec![Sx::n(1)]), "then-clause error".into()),
+        },
+    }
+}
+#[cfg(not(rre_verif))]
+fn run_split(_case: &Sx) -> (Sx, String) { (Sx::l(vec![Sx::n(9)]), "no hook".into()) }
+
+/// texts for the splitting layer: statements / arguments built from fields, literals in both quote characters whose content is full of
+/// separators, the other quote character, '=', "+=", parentheses and multi-byte characters, custom calls, blanks; plus raw token soups
+fn gen_split(tier: Tier, rng: &mut Rng, v: &mut Vec<Sx>) {
+    const INSIDE: [&str; 14] = [";", ",", "=", "+=", " ", "a", "(", ")", "é", "💥", "x;y", "k=v", "\t", "."];
+    let lit = |rng: &mut Rng| -> String { let q = if rng.chance(1, 2) { '"' } else { '\'' }; let other = if q == '"' { "'" } else { "\"" };
+        let k = rng.range(0, 5); let mut s = String::new(); s.push(q);
+        for _ in 0..k { if rng.chance(1, 5) { s.push_str(other); } else { s.push_str(*rng.pick(&INSIDE)); } } s.push(q); s };
+    let field = |rng: &mut Rng| -> String { (*rng.pick(&["X.a", "Order.total", "b", "User.é", "x_1"])).to_string() };
+    let pad = |rng: &mut Rng| -> &'static str { *rng.pick(&["", " ", "  ", "\n", "\t", "\u{a0}"]) };
+    let n = if tier == Tier::Thorough { 30000 } else { 3000 };
+    for _ in 0..n {
+        // a then clause
+        let k = rng.range(0, 5); let mut s = String::new();
+        for _ in 0..k {
+            s.push_str(pad(rng));
+            match rng.below(5) {
+                0 | 1 => { s.push_str(&field(rng)); s.push_str(pad(rng)); s.push('='); s.push_str(pad(rng)); if rng.chance(2, 3) { s.push_str(&lit(rng)); } else { s.push_str(&format!("{}", rng.below(100))); } }
+                2 => { s.push_str(&field(rng)); s.push_str(pad(rng)); s.push_str("+="); s.push_str(pad(rng)); s.push_str(&lit(rng)); }
+                3 => { s.push_str(*rng.pick(&["Log", "Notify", "audit"])); s.push('('); let na = rng.range(0, 3); for i in 0..na { if i > 0 { s.push_str(", "); } if rng.chance(2, 3) { s.push_str(&lit(rng)); } else { s.push_str("7"); } } s.push(')'); }
+                _ => { s.push_str(pad(rng)); }
+            }
+            s.push_str(pad(rng)); if rng.chance(9, 10) { s.push(';'); }
+        }
+        v.push(Sx::l(vec![Sx::n(4), Sx::s(&s)]));
+        // an argument list
+        let na = rng.range(0, 4); let mut a = String::new();
+        for i in 0..na { if i > 0 { a.push(','); } a.push_str(pad(rng)); if rng.chance(2, 3) { a.push_str(&lit(rng)); } else { a.push_str(*rng.pick(&["1", "x", "X.a", "é", ""])); } a.push_str(pad(rng)); }
+        v.push(Sx::l(vec![Sx::n(2), Sx::s(&a)]));
+        // find_outside_strings on both, and on raw soups (unterminated literals included)
+        let soup: String = (0..rng.range(0, 10)).map(|_| *rng.pick(&["\"", "'", "=", "+=", ";", ",", "a", " ", "é", "=="])).collect::<Vec<&str>>().concat();
+        for t in [&s, &a, &soup] { v.push(Sx::l(vec![Sx::n(3), Sx::s(t), Sx::s(*rng.pick(&["=", "+=", ",", ";", "é"]))])); }
+        v.push(Sx::l(vec![Sx::n(2), Sx::s(&soup)]));
+    }
+}
+
 pub fn run(case: &Sx) -> (Sx, String) {
+    if case.at(0).as_u() >= 2 { return run_split(case); }
     if case.at(0).as_u() == 1 {
         let text = case.at(1).as_s();
         #[cfg(rre_verif)]
